@@ -602,6 +602,29 @@ func (t *tokenizer) skipBlobHelper() error {
 		return err
 	}
 
+	// A clob holds quoted text; skip it as text, or a '}' inside it would be taken for the end.
+	if c == '"' {
+		if err := t.skipStringHelper(); err != nil {
+			return err
+		}
+		if c, _, err = t.skipLobWhitespace(); err != nil {
+			return err
+		}
+	} else if c == '\'' {
+		ok, err := t.IsTripleQuote()
+		if err != nil {
+			return err
+		}
+		if ok {
+			if err := t.skipLongStringHelper(t.ensureNoCommentsHandler); err != nil {
+				return err
+			}
+			if c, _, err = t.skipLobWhitespace(); err != nil {
+				return err
+			}
+		}
+	}
+
 	// https://github.com/amzn/ion-go/issues/115
 	for c != '}' {
 		c, _, err = t.skipLobWhitespace()
